@@ -22,7 +22,7 @@ import os
 import subprocess
 
 from .. import typestate
-from ..facts import Prover, _k, strip_bitcasts
+from ..facts import Prover, _k, strip_bitcasts, edge_atoms
 from ..ir import const_int, resolve_addr, mem_access
 from .. import model as _model
 from .c05 import counter_of, slot_of, SPD
@@ -111,7 +111,11 @@ def run(m, rep, tier):
                 a1.violation(site, 'non-atomic %s of ref.%s at %s: a data race with any concurrent reference operation on the same block' % (kind, rf, i.loc()), i.loc(), {})
 
     a2 = rep.rule('A2', 'decrements that gate destruction are RMWs with ordering >= acq_rel', floor=2)
-    for f in fns:
+    # on the inlined bodies of the public entry points: a decrement wrapped in a helper is judged where its result is used
+    decls0 = header_functions(m, ('memory.h',))
+    fns2 = [m.ifn(n) for n in sorted(decls0) if n.startswith(('cstl_shared_ptr_', 'cstl_weak_ptr_')) and m.ifn(n) is not None]
+    seen2 = {}
+    for f in fns2:
         for i in f.all_insts():
             if i.op == 'atomicrmw' and i.x.get('rmw') == 'sub':
                 wh, _ = counter_of(f, resolve_addr(f, i.o[0]))
@@ -119,10 +123,15 @@ def run(m, rep, tier):
                     continue
                 gates = any(u.op == 'icmp' for u in f.users(i.ref))
                 site = '%s:%s-decrement' % (f.name, wh)
+                seen2[site] = seen2.get(site, 0) + 1
+                if seen2[site] > 1:
+                    site += '#%d' % seen2[site]
                 if not gates:
                     a2.ok(site, 'result unused (undo of a speculative increment)', i.loc())
                 elif i.x.get('atomic') in ORD_OK:
                     a2.ok(site, 'atomicrmw sub %s, result tested' % i.x.get('atomic'), i.loc())
+                elif i.x.get('atomic') == 'release' and _acquire_fence_guards(f, i):
+                    a2.ok(site, 'atomicrmw sub release, and an acquire fence dominates everything done under the tested result', i.loc())
                 else:
                     a2.violation(site, 'the decrement that decides destruction has memory ordering `%s`: the destroying thread is not ordered after the other '
                                  'owners\' last accesses (needs at least acq_rel)' % i.x.get('atomic'), i.loc(), {})
@@ -139,6 +148,32 @@ def run(m, rep, tier):
             continue
         check_flag(m, f, a3, a4)
         check_after_release(m, f, a5)
+
+
+def _acquire_fence_guards(f, rmw):
+    """release-decrement + acquire fence: every call / store / free in the region entered when the tested result says
+    "last reference" is dominated by a fence with ordering >= acquire that the decrement dominates"""
+    fences = [x for x in f.all_insts() if x.op == 'fence' and x.x.get('atomic') in ('acquire', 'acq_rel', 'seq_cst') and f.dominates(rmw, x)]
+    if not fences:
+        return False
+    for u in f.users(rmw.ref):
+        if u.op != 'icmp':
+            continue
+        for br in f.users(u.ref):
+            if br.op != 'br' or not br.o:
+                continue
+            for tgt in br.block.succ:
+                if not f.edge_dominates(br.block, tgt, tgt):
+                    continue
+                atoms, _ = edge_atoms(f, br.block, tgt)
+                if not any(op == 'eq' and const_int(y) == 1 for (op, x, y) in atoms):
+                    continue
+                for b in f.blocks:
+                    if b is tgt or f.dominates_block(tgt, b):
+                        for x in b.insts:
+                            if (x.op in ('store', 'atomicrmw') or (x.op == 'call' and not x.is_intrinsic())) and not any(f.dominates(fe, x) for fe in fences):
+                                return False
+    return True
 
 
 def _mentions(f, ins, root):
